@@ -25,7 +25,7 @@ CONTROLS = ["alpha", "beta", "gamma", "delta", "count", "name", "title", "value"
             "weight", "height", "label", "note", "flavour"]
 MODEL_SHAPES = ["int", "date", "array-model", "union", "int-first", "addl-typed", "formats", "multipart", "literal-enum"]
 MODEL_OPTIONS = {"literal-enum": {"literal_enums": True}}
-EP_SHAPES = [(loc, body) for loc in ("path", "query", "header", "cookie") for body in (False, True)] + [("query-uuid", False), ("query-formats", True), ("path-dtq", False)]
+EP_SHAPES = [(loc, body) for loc in ("path", "query", "header", "cookie") for body in (False, True)] + [("query-uuid", False), ("query-formats", True), ("path-dtq", False), ("path-after", False), ("path-before", True)]
 _CANDS = {}
 
 
@@ -103,6 +103,17 @@ def _ep_doc(name, loc, body):
             op["requestBody"] = {"required": True, "content": {"application/json": {"schema": {"$ref": "#/components/schemas/In"}}}}
         comps = {"Out": {"type": "object", "properties": {"ok": {"type": "boolean"}}}, "In": {"type": "object", "properties": {"payload": {"type": "string"}}}}
         return gen.base_doc(comps, paths={"/things": {"post": op}})
+    if loc in ("path-after", "path-before"):
+        # COUNT: two path parameters; the candidate comes after / before one whose name is already its identifier
+        op = {"operationId": "theOp", "parameters": [{"name": "grp", "in": "path", "required": True, "schema": {"type": "string"}},
+                                                      {"name": name, "in": "path", "required": True, "schema": {"type": "string"}},
+                                                      {"name": "fixedq", "in": "query", "required": True, "schema": {"type": "integer"}}],
+              "responses": {"200": {"description": "d", "content": {"application/json": {"schema": {"$ref": "#/components/schemas/Out"}}}}}}
+        if body:
+            op["requestBody"] = {"required": True, "content": {"application/json": {"schema": {"$ref": "#/components/schemas/In"}}}}
+        comps = {"Out": {"type": "object", "properties": {"ok": {"type": "boolean"}}}, "In": {"type": "object", "properties": {"payload": {"type": "string"}}}}
+        path = "/groups/{grp}/things/{" + name + "}/tail" if loc == "path-after" else "/things/{" + name + "}/groups/{grp}"
+        return gen.base_doc(comps, paths={path: {"post": op}})
     if loc == "path-dtq":
         # the candidate is a PATH parameter next to query parameters that are transformed into json_<name> locals before the URL is built
         op = {"operationId": "theOp", "parameters": [{"name": name, "in": "path", "required": True, "schema": {"type": "string"}},
@@ -280,7 +291,7 @@ def _behaviour_ep(name, loc, body):
             return ("broken", f"import: {type(exc).__name__}: {str(exc)[:120]}")
         import httpx
         cap = wire.Capture(lambda request: httpx.Response(200, json={"ok": True}))
-        real_loc = "query" if loc.startswith("query-") else ("path" if loc == "path-dtq" else loc)
+        real_loc = "query" if loc.startswith("query-") else ("path" if loc.startswith("path-") else loc)
         mine = [q for q in ep[f"{real_loc}_params"] if q["name"] == name] or ep[f"{real_loc}_params"][:1]
         py = mine[0]["py"] if mine else None
         fixed = next(q["py"] for q in ep["query_params"] if q["name"] == "fixedq")
@@ -288,8 +299,10 @@ def _behaviour_ep(name, loc, body):
             return ("diag", ["parameter not offered"])
         import datetime
         import uuid as _uuid
-        argvals = ("Wv1",) if loc in ("path", "path-dtq") else ("Wv1", None)
+        argvals = ("Wv1",) if real_loc == "path" else ("Wv1", None)
         extra = {}
+        if loc in ("path-after", "path-before"):
+            extra[next(q["py"] for q in ep["path_params"] if q["name"] == "grp")] = "Gv2"
         if loc == "path-dtq":
             for q in ep["query_params"]:
                 if q["name"] == "sibling":
